@@ -15,20 +15,25 @@ the value of every id is the one written by the last of those commits that touch
 transaction cannot disturb an earlier acknowledged one: cutting later only adds commits -/
 theorem recovered_step (d : Disk V) (w : List (Txn V)) (n : Nat) (t : Txn V) (h : w[n]? = some t) :
     recovered d w (n + 1) = commit (recovered d w n) t := by
-  sorry
+  simp [recovered, List.take_add_one, h, List.foldl_append]
 
 /-- the transaction in flight is either fully applied or absent: the state after a crash at any
 point is the state after some prefix of the workload -/
 theorem all_or_nothing (d : Disk V) (w : List (Txn V)) (n : Nat) :
     ∃ k, k ≤ w.length ∧ recovered d w n = recovered d w k := by
-  sorry
+  by_cases hn : n ≤ w.length
+  · exact ⟨n, hn, rfl⟩
+  · refine ⟨w.length, Nat.le_refl _, ?_⟩
+    simp only [recovered]
+    rw [List.take_of_length_le (by omega), List.take_of_length_le (Nat.le_refl _)]
 
 /-- **Init seeds exactly once**: once the marker is committed every later Init is the identity —
 seeds deleted later are never resurrected, nothing is duplicated … -/
 theorem init_once (seeds seeds' : List (Bytes × V)) (d : Disk V) (w : List (Txn V))
     (hw : ∀ t ∈ w, ∀ s, t ≠ .init s) :
     commit (w.foldl commit (initOnce seeds d)) (.init seeds') = w.foldl commit (initOnce seeds d) := by
-  sorry
+  have _ := hw  -- (holds for every workload: a later Init is the identity as well)
+  exact initOnce_of_marker seeds' _ (foldl_commit_marker w _ (initOnce_marker seeds d))
 
 /-- … never half-seeding: Init is one transaction, so before it the marker is unset and no seed
 was written by it, after it all missing seeds and the marker are there -/
@@ -36,12 +41,17 @@ theorem init_complete (seeds : List (Bytes × V)) (d : Disk V) (hm : d.marker = 
     (hs : (seeds.map (·.1)).Nodup) :
     (initOnce seeds d).marker = true ∧
     ∀ id v, (id, v) ∈ seeds → vget (initOnce seeds d).vals id = (match vget d.vals id with | some old => some old | none => some v) := by
-  sorry
+  refine ⟨initOnce_marker seeds d, ?_⟩
+  intro id v hmem
+  rw [initOnce_vals seeds d hm, (mem_iff_vget seeds hs id v).1 hmem]
+  cases vget d.vals id <;> rfl
 
 /-- Init never overwrites or removes an existing value -/
 theorem init_preserves (seeds : List (Bytes × V)) (d : Disk V) (id : Bytes) (v : V) (h : vget d.vals id = some v) :
     vget (initOnce seeds d).vals id = some v := by
-  sorry
+  cases hm : d.marker with
+  | true => rw [initOnce_of_marker seeds d hm]; exact h
+  | false => rw [initOnce_vals seeds d hm, h]; rfl
 
 /-- **RebuildIndexes is exact**, whatever garbage the index held before: afterwards the keys of
 every index are exactly the image of the stored values -/
@@ -50,7 +60,14 @@ theorem rebuild_exact (idxs : List (Idx V)) (vals : List (Bytes × V)) (db : DB)
     (hnames : (idxs.map (·.name)).Pairwise (fun a b => ¬ (getQuery a []).isPrefixOf (getQuery b []) ∧ ¬ (getQuery b []).isPrefixOf (getQuery a [])))
     (ix : Idx V) (hix : ix ∈ idxs) (k : Bytes) :
     k ∈ keysOf ix.name (rebuild idxs vals db) ↔ ∃ e ∈ entriesOf ix vals, k = getKey ix.name e.1 e.2 := by
-  sorry
+  rw [← idxSpec_iff_entries ix vals hd]
+  have h := rebuild_fold_inv idxs hnames vals [] _ (by simpa using hd) (by
+    intro ix' hix' k'
+    constructor
+    · intro h; exact absurd h (keysOf_cleared idxs db ix' hix' k')
+    · rintro ⟨id, key, h, _⟩; simp at h) ix hix k
+  rw [List.nil_append] at h
+  exact h
 
 /-! ## non-vacuity -/
 example : (initOnce [([1], 5)] ({ vals := [], marker := false } : Disk Nat)).vals = [([1], 5)] := by decide
